@@ -799,6 +799,17 @@ class rrule(rrulebase):
         byminute = self._byminute
         bysecond = self._bysecond
 
+        if freq == WEEKLY and bysetpos:
+            # BYSETPOS counts positions in the whole week: start the first
+            # period at the week start (occurrences before dtstart are
+            # dropped by the `res >= self._dtstart` test below).
+            back = (weekday - wkst) % 7
+            if back and self._dtstart.toordinal() - back >= 1:
+                first = datetime.date.fromordinal(
+                    self._dtstart.toordinal() - back)
+                year, month, day = first.year, first.month, first.day
+                weekday = wkst
+
         ii = _iterinfo(self)
         ii.rebuild(year, month)
 
